@@ -7,7 +7,7 @@ import arrgen as G
 from common import fb, close, canon_hash, unbits
 
 ID = "C11"
-SECTIONS = ["ops"]
+SECTIONS = ["ops", "arrays"]
 LEAN_MODULES = ["QExPy.Props.C11"]
 THEOREMS = ["QExPy.Arr.C11_length", "QExPy.Arr.C11_elem", "QExPy.Arr.C11_elem_value_error",
             "QExPy.Arr.C11_kind", "QExPy.Arr.C11_broadcast_right", "QExPy.Arr.C11_broadcast_left",
